@@ -208,7 +208,8 @@ def _c13(seed, quick):
 
 def _c14(seed, quick):
     return {
-        "shards": comp_shards("C14", seed, "c14", 6 if quick else 400, 400, shards=12) + conc_shards("C14", seed, "estimate", 300 if quick else 20000, 40 if quick else 400, shards=4),
+        "shards": comp_shards("C14", seed, "c14", 6 if quick else 400, 400, shards=12) + conc_shards("C14", seed, "estimate", 300 if quick else 20000, 40 if quick else 400, shards=4 if quick else 3)
+                  + ([] if quick else conc_shards("C14", seed, "idle", 1, 200, shards=1, extra=["--from", "1"])),
         "rule": "Packed rows: all 256 byte values x 2 nibble positions (exhaustive for that part). Sketch / TinyLFU: every counter count 1..=130 plus random larger ones "
                 "(non-powers of two included), random access streams over a 6-12 hash alphabet with collisions, against an unpacked reference sketch fed the same "
                 "row seeds. distinct = (part, byte/position | counter count, stream seed); every case is non-trivial (each exercises increments and ageing).",
